@@ -41,6 +41,7 @@ type runner struct {
 	hm *quic.VerifHandlerMap
 	m  *quic.VerifCIDManager
 	g  *quic.VerifCIDGenerator
+	pm *quic.VerifPathManager
 
 	tokSet  bool
 	newSeen bool
@@ -73,6 +74,9 @@ type runner struct {
 	gAllIDs  [][]byte // every ID ever issued (for pkt / retire destinations)
 	gHighest uint64
 	style    int
+	pmMode   bool   // the case drives path probing through the real pathManager instead of calling the manager directly
+	pmNow    int64
+	pmPaths  []int64 // path ids a PATH_CHALLENGE was sent for
 }
 
 func hx(b []byte) string {
@@ -118,7 +122,9 @@ func newRunner(t *testing.T, r *vh.Rand) vh.Runner {
 		retired: map[uint64]bool{}, issued: map[uint64]frame{}, nextSeq: 1, adv: protocol.MaxActiveConnectionIDs,
 		gNow:  1_000_000_000,
 		style: r.Pick(45, 25, 15, 15), // in order / heavy reordering / duplicates and conflicts / wild
+		pmNow: 1_000_000_000,
 	}
+	rn.pmMode = r.Chance(40)
 	go func() {
 		defer close(rn.done)
 		synctest.Test(t, func(t *testing.T) {
@@ -294,7 +300,34 @@ func (rn *runner) mstate() string {
 		}
 		sb.WriteString(hx(t))
 	}
+	if rn.pm != nil {
+		ps, next := rn.pm.State()
+		fmt.Fprintf(&sb, " pm=%d:", next)
+		if len(ps) == 0 {
+			sb.WriteString("-")
+		}
+		for i, p := range ps {
+			if i > 0 {
+				sb.WriteByte('/')
+			}
+			v, n := 0, 0
+			if p.Validated {
+				v = 1
+			}
+			if p.RcvdNonProbing {
+				n = 1
+			}
+			fmt.Fprintf(&sb, "%d@%d,%d,%d%d", p.ID, p.Addr, p.LastPacketTime, v, n)
+		}
+	}
 	return sb.String()
+}
+
+func (rn *runner) ensurePM() {
+	rn.ensureM()
+	if rn.pm == nil {
+		rn.pm = quic.VerifNewPathManager(rn.m)
+	}
 }
 
 func (rn *runner) routes() string {
@@ -508,6 +541,64 @@ func (rn *runner) exec(op string) string {
 		}
 		rn.ensureM()
 		rn.m.ChangeInitialConnID(unhx(w[1]))
+		return "ok" + rn.suffix(op)
+	case "pm.pkt": // pm.pkt <addr> <t> <hasChallenge 0|1> <nonProbing 0|1>: a packet from another address reaches the server connection
+		if len(w) < 5 {
+			return "skip"
+		}
+		rn.ensurePM()
+		id, ch, resp, sw := rn.pm.HandlePacket(int(u64(w[1])), int64(u64(w[2])), w[3] == "1", w[4] == "1")
+		if ch >= 0 {
+			rn.pmPaths = append(rn.pmPaths, ch)
+		}
+		ids := "none"
+		if id != nil {
+			ids = hx(id)
+		}
+		b := func(x bool) int {
+			if x {
+				return 1
+			}
+			return 0
+		}
+		return fmt.Sprintf("id=%s ch=%d resp=%d sw=%d", ids, ch, b(resp), b(sw)) + rn.suffix(op)
+	case "pm.lost": // pm.lost <path>: the packet that carried this path's PATH_CHALLENGE is declared lost
+		if len(w) < 2 {
+			return "skip"
+		}
+		rn.ensurePM()
+		if !rn.pm.Lost(int64(u64(w[1]))) {
+			return "skip"
+		}
+		return "ok" + rn.suffix(op)
+	case "pm.acked":
+		if len(w) < 2 {
+			return "skip"
+		}
+		rn.ensurePM()
+		if !rn.pm.Acked(int64(u64(w[1]))) {
+			return "skip"
+		}
+		return "ok" + rn.suffix(op)
+	case "pm.lostresp":
+		rn.ensurePM()
+		rn.pm.LostResponse()
+		return "ok" + rn.suffix(op)
+	case "pm.resp": // pm.resp <path>: the PATH_RESPONSE for this path's challenge arrives
+		if len(w) < 2 {
+			return "skip"
+		}
+		rn.ensurePM()
+		if !rn.pm.Response(int64(u64(w[1]))) {
+			return "skip"
+		}
+		return "ok" + rn.suffix(op)
+	case "pm.switch": // pm.switch <addr>: the connection migrates to this address
+		if len(w) < 2 {
+			return "skip"
+		}
+		rn.ensurePM()
+		rn.pm.SwitchToPath(int(u64(w[1])))
 		return "ok" + rn.suffix(op)
 	case "istok":
 		if len(w) < 2 {
@@ -860,6 +951,42 @@ func (rn *runner) genG(r *vh.Rand) string {
 	}
 }
 
+// genPM: packets from other addresses (new paths, repeated probes, spaced around pathTimeout), PATH_RESPONSEs,
+// lost / acknowledged PATH_CHALLENGEs, migration.
+func (rn *runner) genPM(r *vh.Rand) string {
+	switch r.Pick(50, 14, 16, 6, 3, 11) {
+	case 0:
+		switch r.Pick(60, 25, 15) {
+		case 0:
+			rn.pmNow += r.Range(0, 400_000_000)
+		case 1:
+			rn.pmNow += r.Range(1_000_000_000, 3_000_000_000)
+		default:
+			rn.pmNow += r.Range(4_900_000_000, 5_100_000_000)
+		}
+		return fmt.Sprintf("pm.pkt %d %d %d %d", r.Range(1, 6), rn.pmNow, r.Intn(2), r.Intn(2))
+	case 1:
+		if len(rn.pmPaths) > 0 {
+			return fmt.Sprintf("pm.resp %d", rn.pmPaths[r.Intn(len(rn.pmPaths))])
+		}
+	case 2:
+		if len(rn.pmPaths) > 0 {
+			p := rn.pmPaths[len(rn.pmPaths)-1-r.Intn(min(3, len(rn.pmPaths)))]
+			return fmt.Sprintf("pm.lost %d", p)
+		}
+	case 3:
+		if len(rn.pmPaths) > 0 {
+			return fmt.Sprintf("pm.acked %d", rn.pmPaths[r.Intn(len(rn.pmPaths))])
+		}
+	case 4:
+		return "pm.lostresp"
+	default:
+		return fmt.Sprintf("pm.switch %d", r.Range(1, 6))
+	}
+	rn.pmNow += r.Range(0, 400_000_000)
+	return fmt.Sprintf("pm.pkt %d %d %d %d", r.Range(1, 6), rn.pmNow, r.Intn(2), r.Intn(2))
+}
+
 func (rn *runner) someTok(r *vh.Rand) []byte {
 	if len(rn.sent) > 0 && r.Chance(85) {
 		return rn.sent[r.Intn(len(rn.sent))].tok
@@ -957,8 +1084,14 @@ func (rn *runner) GenOp(r *vh.Rand, i int) string {
 			return fmt.Sprintf("sentpkt %d", max(1, p+r.Range(-2, 2)))
 		}
 	case 3:
+		if rn.pmMode {
+			return rn.genPM(r)
+		}
 		return fmt.Sprintf("path %d", r.Range(1, 4))
 	case 4:
+		if rn.pmMode {
+			return rn.genPM(r)
+		}
 		if len(rn.probePaths) > 0 && r.Chance(80) {
 			return fmt.Sprintf("retirepath %d", rn.probePaths[r.Intn(len(rn.probePaths))])
 		}
